@@ -272,6 +272,7 @@ type RigR struct {
 	noteMu    sync.Mutex
 	lockOrder map[string][]lockNote // downstream channel -> closing ticks in the order computed under the channel lock
 	fwdPacks  map[string]bool       // "collection|source pchannel|end message id" of packs observed taking the forward path (hook H15)
+	drainIdle int                   // consecutive idle half-seconds of the drain so far
 }
 
 func loadOrGenR(plan *Plan) *RScript {
@@ -502,6 +503,7 @@ func (r *RigR) run() {
 		s.Settle()
 		r.noteEvents()
 		r.checkMappingStep()
+		r.drainIdle = idle
 		acts := r.actions(true)
 		if len(acts) == 0 {
 			idle++
@@ -654,7 +656,18 @@ func (r *RigR) actions(drain bool) []Action {
 		}
 	}
 	if ec := r.mgr.GetEventChan(); len(ec) > 0 {
-		acts = append(acts, Action{Key: "ev", Weight: 6, Run: func() { r.recvEvent(<-ec) }})
+		w := 6
+		if r.sc.Knobs.EventDrainW > 0 {
+			w = r.sc.Knobs.EventDrainW
+		}
+		if cap(ec) > 0 && len(ec) == cap(ec) && cap(ec) < 10 {
+			s.Probe("event_queue_full")
+		}
+		// a busy event loop (EventDrainW == 1) receives an event only when nothing else is left to do - during the drain only
+		// after 45 simulated seconds of idleness, which is longer than any retry budget of the reader
+		if busy := r.sc.Knobs.EventDrainW == 1; !busy || (!drain && len(acts) == 0) || (drain && len(acts) == 0 && r.drainIdle >= 90) {
+			acts = append(acts, Action{Key: "ev", Weight: w, Run: func() { r.recvEvent(<-ec) }})
+		}
 	}
 	return acts
 }
